@@ -11,6 +11,31 @@ CLAIMS = {
   note="Trusted: CPython pathlib/os on tmpfs, the reference model (dsim/model). Not covered: case-insensitive file systems, Windows paths, I/O errors, threads.",
   technique="deterministic simulation: seeded enumeration-order / hash-seed / cwd / spelling schedules over a simulated workspace, reference-model oracle",
   ref="§3 C10"),
+ "C02": dict(
+  text="By-product of the reference peer (a pure function of the definition): generated namespaces incl. arrays at every prefix-width boundary capacity and unions at the tag-width boundary are read by the real front end and every type's alignment, extent, prefix / tag / header widths and bit_length_set are compared with an independent reference layout (exact sets when small, else min / max / residues by a modular sumset algebra); for small sealed types the set must equal the lengths actually produced when every shape is serialized.",
+  note="Trusted: model/types.py + blsref.py as the Specification's layout rules. The simulation contributes only the observed-length cross-check.",
+  technique="deterministic simulation harness: reference-layout oracle + exhaustive shape serialization (by-product claim)",
+  ref="§3 C02"),
+ "C06": dict(
+  text="Seeded exploration in World X, fault-free configuration: three parties - writer (pydsdl.serialize), reader (pydsdl.deserialize) and an independent reference peer (Specification codec over the abstract type language). For every generated type 12-40 seeded values incl. out-of-range numbers, NaN / inf / subnormals, empty / full arrays, multi-byte UTF-8, omitted fields, relaxed forms, with and without delimiter header: bytes identical to the reference peer's, round trip equals the reference's canonicalisation, length in bit_length_set. This is the baseline for C07 / C14's relaxed oracles.",
+  note="Trusted: struct for IEEE-754 rounding. Not generated: infinite input for saturated floats, float inputs for integer fields, ambiguous bare-dict relaxed forms.",
+  technique="deterministic simulation: writer / reader / reference-peer differential over seeded types and values (fault-free baseline)",
+  ref="§3 C06"),
+ "C07": dict(
+  text="Seeded exploration in World X with a faulty byte channel: every byte prefix (torn write), prefixes inside length prefixes / tags / headers / nested delimited payloads, appended zeros and junk, single-bit flips, targeted over-capacity prefixes / out-of-range tags / oversized headers, random bytes. Oracles: only SerDesError / ValueError, fixed point of returned objects, agreement with the reference peer's decoder on value or rejection, truncation and zero-extension laws, independence from buffer type and neighbours.",
+  note="Capacities are kept small so that decode loops are bounded. The reference decoder is the stated semantics of implicit truncation / zero extension / bounded nested readers.",
+  technique="deterministic simulation: seeded channel faults (truncate / extend / flip / targeted control-field corruption) with a reference-peer oracle",
+  ref="§3 C07"),
+ "C08": dict(
+  text="Seeded exploration in World X: offset sets yielded by iterate_fields_with_offsets / enumerate_elements_with_offsets (composed recursively the way a code generator does, for base {0} and for seeded multi-valued / unaligned bases) must equal the reference layout, contain every start bit at which the reference peer actually wrote the field, and for small types without delimited members equal the union of start bits over all shapes; @print _offset_ / T._bit_length_ / T._extent_ inserted at seeded positions must print the API's values.",
+  note="Completeness by enumeration is not demanded after a delimited member (its set deliberately covers future revisions); there the reference layout is the oracle.",
+  technique="deterministic simulation: reference-peer position map as a monitor on simulated traffic + reference layout",
+  ref="§3 C08"),
+ "C14": dict(
+  text="Seeded exploration in World X with schema skew: two nodes hold two revisions of a delimited structure (same extent, one field list a prefix of the other) nested as a field, fixed / variable array element, union variant and inside another delimited type; container layout (bit_length_set, extent, all offsets) must be identical in both worlds, and traffic in both directions must keep common fields, zero-fill unknown ones, skip extras and keep every later field and element intact; the reference peer must agree, also under truncation faults.",
+  note="D is a structure (the property speaks of fields); appended fields are of any kind incl. nested delimited types.",
+  technique="deterministic simulation: two-party schema-skew traffic with channel faults and a reference-peer / evolution-rule oracle",
+  ref="§3 C14"),
  "C03": dict(
   text="Seeded exploration in World W of the statement-stream state machine under end-of-input and formatting faults: each generated definition is rendered under 4-7 formatting vectors (final newline absent, CRLF, blank runs, trailing blanks, blanks-only 'empty' lines, orphan comment blocks, directive order, every way the text can end) and read through the real front end; oracles: mirror against the abstract definition (order, names, normalized types, exact values, attached comments, flags, request/response), identical canonical form across all vectors, and round trip of the returned model through canonical DSDL.",
   note="Comment attachment is asserted only for the two unambiguous placements; trailing blanks are not appended to comment lines (they are comment content).",
